@@ -305,7 +305,14 @@ func (vc *VC) ScriptWith(o *Obligation, style string, extra []string) string {
 		// clauses alone; an obligation of group G additionally keeps the clauses
 		// of G and of its sub-groups G.x. (Dropping hypotheses is always sound.)
 		g := obligationGroup(o.Name)
+		inGoal := map[string]bool{}
+		for _, tok := range strings.FieldsFunc(o.Goal.S, tokenSplit) {
+			inGoal[tok] = true
+		}
 		for n, og := range vc.groupOf {
+			if inGoal[n] {
+				continue // never switch off what is to be proved
+			}
 			if g == "" || (og != g && !strings.HasPrefix(og, g+".")) {
 				if _, ok := byName[n]; ok {
 					byName[n] = fmt.Sprintf("(define-fun %s () Bool true)", n)
@@ -840,5 +847,7 @@ func obligationGroup(name string) string {
 	if m == nil {
 		return ""
 	}
-	return m[1]
+	return loopPrefixRe.ReplaceAllString(m[1], "")
 }
+
+var loopPrefixRe = regexp.MustCompile(`^loop[0-9]+\.`)
